@@ -397,6 +397,15 @@ def exec_grammar(case, obs):
     t = obs.lib("tlt_load(mdoc)", ioutils.tlt_load, os.path.abspath("g_in.mdoc"))
     want = np.sort(np.array([d["TiltAngle"] for d in imgs], dtype=float))
     obs.check(np.allclose(np.asarray(t, dtype=float), want, atol=1e-9, rtol=0), "tlt_load", "tilt-angles-ascending", lambda: f"{t} vs {want}", cls="mdoc-input")
+    # ... and the mdoc module's own angle reader: the numbers of the file in file order, also in the one-per-line file it writes
+    inorder = np.array([d["TiltAngle"] for d in imgs], dtype=float)
+    ta = obs.lib("mdoc.get_tilt_angles", mdoc.get_tilt_angles, os.path.abspath("g_in.mdoc"), "g_tilts.tlt")
+    obs.check(np.shape(ta) == inorder.shape and np.allclose(np.asarray(ta, dtype=float), inorder, atol=1e-9, rtol=0), "mdoc.get_tilt_angles", "tilt-angles-file-order",
+              lambda: f"{ta} vs {inorder}", cls="mdoc-input")
+    with open("g_tilts.tlt") as f:
+        lines = [float(x) for x in f.read().split()]
+    obs.check(len(lines) == len(inorder) and np.allclose(lines, inorder, atol=1e-9, rtol=0), "mdoc.get_tilt_angles", "tilt-angles-file-order",
+              lambda: f"written file holds {lines} vs {inorder}", cls="written-tlt-file")
     obs.nontrivial = len(imgs) >= 2
     obs.outcome = (len(out), hash(out) & 0xFFFFFF)
 
